@@ -1459,7 +1459,9 @@ pub fn exec(w: &mut World, op: &J) -> StepOut {
                         if v1.ptr != v0.ptr || rp != v0.ptr + at {
                             w.v(&["C07"], "address:m_split_off", format!("h{}.split_off({}): self moved by {}, result at offset {}", h, at, v1.ptr as isize - v0.ptr as isize, rp as isize - v0.ptr as isize));
                         }
-                        if v1.cap != at || rc != v0.cap - at {
+                        // (C04: the two regions must not overlap nor reach beyond the region that was split;
+                        // smaller capacities would be allowed)
+                        if v1.cap > at || rc > v0.cap - at {
                             w.v(&["C04"], "capacity:m_split_off", format!("h{}.split_off({}) on capacity {}: self.capacity() = {}, other.capacity() = {}", h, at, v0.cap, v1.cap, rc));
                         }
                     } else {
@@ -1468,7 +1470,7 @@ pub fn exec(w: &mut World, op: &J) -> StepOut {
                         if v1.ptr != v0.ptr + at || rp != v0.ptr {
                             w.v(&["C07"], "address:m_split_to", format!("h{}.{}({}): self moved by {}, result at offset {}", h, name, at, v1.ptr as isize - v0.ptr as isize, rp as isize - v0.ptr as isize));
                         }
-                        if name == "m_split" && v1.cap != v0.cap - v0.len {
+                        if name == "m_split" && v1.cap > v0.cap - v0.len {
                             w.v(&["C04"], "capacity:m_split", format!("h{}.split(): capacity {} len {} -> self.capacity() {}", h, v0.cap, v0.len, v1.cap));
                         }
                     }
@@ -1500,7 +1502,9 @@ pub fn exec(w: &mut World, op: &J) -> StepOut {
                     s.model.truncate(n);
                 }
                 let v1 = s.view();
-                if (v1.len > 0 && v1.ptr != v0.ptr) || v1.cap != v0.cap {
+                // C07 promises the address for a non-empty result only; no property fixes the capacity
+                // after truncate / clear (an emptied handle may, e.g., rewind to the start of its block)
+                if v1.len > 0 && v1.ptr != v0.ptr {
                     w.v(&["C07", "C04"], "address:m_truncate", format!("h{}.{}({}): ptr moved by {}, capacity {} -> {}", h, name, n, v1.ptr as isize - v0.ptr as isize, v0.cap, v1.cap));
                 }
                 if byte_buffer_allocs(&ev) > 0 {
